@@ -117,9 +117,24 @@ func runC06(c RTCase) (fails []vstat.Failure) {
 					}
 				}
 				atHop := !x.fail && peerName == x.peer && proxyForm && (x.hopKind == "http" || x.hopKind == "https")
+				wantHere := wantPA
+				if !atHop && proxyForm && (peerName == "P" || peerName == "Q" || peerName == "T") {
+					// a message to an upstream proxy that is not this request's hop: the transport finishes dials (CONNECT
+					// included) in the background, so a CONNECT of an earlier request of this instance may be logged now.
+					// It is judged as what it is - a message addressed to that proxy under this configuration.
+					atHop = true
+					wantHere = ""
+					static := map[string]string{"P": "P", "T": "T"}[peerName]
+					if c.Cfg.UserInfo != "" && c.Cfg.Upstream == static && static != "" {
+						wantHere = c.Cfg.UserInfo
+					} else if u, p, ok := e.refCredMatch(c.Cfg.Creds, e.peers[peerName].Host, e.peers[peerName].Port); ok {
+						wantHere = u + ":" + p
+					}
+				}
 				if atHop {
 					// (2) exactly the configured credentials on requests addressed to the proxy
 					want := []string{}
+					wantPA := wantHere
 					if wantPA != "" {
 						want = []string{"Basic " + b64(wantPA)}
 					}
